@@ -33,7 +33,9 @@ verus! {
 //@consts protocol/src/error_codes.rs
 #[verifier::external_body] pub struct WriteError { _p: u8 }
 #[verifier::external_body] pub struct ConnectError { _p: u8 }
-#[verifier::external_body] pub struct ConnectionError { _p: u8 }
+// quinn::ConnectionError (quinn-proto 0.10 connection/mod.rs): the variants, payloads opaque
+#[verifier::external_body] pub struct QuinnDetail { _p: u8 }
+pub enum ConnectionError { VersionMismatch, TransportError(QuinnDetail), ConnectionClosed(QuinnDetail), ApplicationClosed(QuinnDetail), Reset, TimedOut, LocallyClosed }
 #[verifier::external_body] pub struct AddrParseError { _p: u8 }
 pub mod bincode { #[verifier::external_body] pub struct Error { _p: u8 } }
 
